@@ -1,16 +1,24 @@
 """C03 - Switch state mirrors the hardware; handlers fire once per real change.
 
 Implementation side: a real machine (VMachine, virtual time on the 1/8 s grid) with NO and NC switches; reports through
-SwitchController.process_switch (raw and logical), handlers through add_switch_handler_obj / remove_switch_handler_obj,
-queries through is_active/is_inactive(ms).  Every run of SwitchController._process_active_timed_switches (the single
-wake-up per switch) is logged by a wrapper installed from the harness process and fed to the model as `wake`.
-Model side: MpfVerif.Model.Switch via drv_c03 (one model instance per switch).
-Oracle (model independent): computed from the timeline alone - state = last reported logical state and hw_state its raw
-value; every change into a state calls each untimed registration for it once, in registration order, duplicates call
-nothing; a registration with a hold time is called exactly at change+ms iff it was registered before that instant
-(strictly), not removed before it and the switch did not change before it; nothing else is ever called.
-A second stream (oracle only) checks the Switch device's events: <name>_active/_inactive, tag events,
-events_when_activated with |ms and the ignore window.
+SwitchController.process_switch (raw and logical), FAST's resync (update_switches_from_hw_data) and verify_switches polls,
+handlers through add_switch_handler_obj / remove_switch_handler_obj - from the harness AND from inside the callbacks: every
+callback id has a program (a list of add/remove actions on its own switch) that it performs when the controller calls it,
+during the untimed walk of a change or while an expired deadline bucket is being processed -, mute/unmute, monitors,
+wait_for_switch / wait_for_any_switch futures (their handlers are ordinary handlers with ids 500+), queries through
+is_active/is_inactive(ms).  Every run of SwitchController._process_active_timed_switches (the single wake-up per switch) is
+logged by a wrapper installed from the harness process and fed to the model as `wake`.
+Model side: MpfVerif.Model.Switch via drv_c03 (one model instance per switch, the callback programs as `prog` lines).
+Oracle (model independent): walks the log in the order things happened - state = last reported logical state and hw_state its
+raw value (after a resync: the hardware); every call must be of a handler that is registered at that very moment (a removed
+handler never fires, also when an earlier callback of the same walk / bucket removed it), for the state the switch is in, at
+change+ms, at most once per registration and change; every change into a state calls each untimed registration that existed
+when it happened once unless a callback of that walk removed it first, duplicates call nothing; a registration with a hold
+time is called exactly at change+ms iff it was registered before that instant (strictly), not removed before it and the
+switch did not change before it; monitors hear of every real change once; a wait future resolves at the first call of its
+handler, never without a change, and leaves no handler behind once it is done or cancelled.
+A second stream (oracle + model) checks the Switch device's events: <name>_active/_inactive, tag events,
+events_when_activated with |ms and the ignore window (on an NC switch).
 """
 import json
 
@@ -24,30 +32,42 @@ LEAN_MODULES = ["MpfVerif.Props.C03"]
 PROPS_FILE = "MpfVerif/Props/C03.lean"
 GEN = []
 MANIFEST = {
-  "text": "Proof on a Lean model of the switch controller's per-switch state (logical/raw state, last change, registered handlers per state, the insertion-ordered dict of pending hold-time deadlines and the single scheduled wake-up): for every sequence of raw/logical reports, handler registrations and removals, time steps and wake-ups, the logical state is the last reported one (NC inverted for raw reports) and the raw state its inverse image, a duplicate report changes nothing and calls nothing, a change calls exactly the untimed handlers registered for the new state once each in order, the wake-up is always scheduled at the minimum pending deadline and never overdue (so a timed handler is called exactly at change+ms, only while the switch has stayed in that state), and a removed handler is neither registered nor pending and is never called until it is added again. A second model covers the Switch device's own events: without an ignore window the configured events (<name>_active/_inactive, tag events, events_when_(de)activated) are posted exactly once per real change in order and never otherwise (events_once; |ms events are timed handlers of the controller model); with ignore_window_ms a change outside a window posts and opens a window ending exactly w later, changes inside it post nothing, the window end is never slept through and posts the current state iff the switch then differs from the state that opened it, so there is one post per window plus the catch-up, and whenever no window is open the last post equals the current state (recycle_window). Both models are tied to switch_controller.py and devices/switch.py by correspondence runs on real machines (NO and NC switches, tags, timed events, ignore window) on every check.",
-  "note": "Trusted: Lean kernel + {propext, Quot.sound, Classical.choice}; hand-written Model/Switch.lean validated by differential runs; asyncio timer heap / TimeTravelLoop (time cannot pass a scheduled wake-up: built into the model's `to` step); 1/8 s time grid (floats exact). Handlers that register/remove handlers from inside a switch callback, muted switches, monitors and wait_for_switch futures are not modelled.",
-  "technique": "Lean 4 invariants over all op sequences (induction over the op list) on two hand models (controller per switch, Switch device events) + differential correspondence with the real SwitchController/Switch + timeline oracles",
+  "text": "Proof on a Lean model of the switch controller's per-switch state (logical/raw state, last change, registered handlers per state, the insertion-ordered dict of pending hold-time deadlines, the single scheduled wake-up, the mute set, the monitor flag), for every assignment of behaviours to callbacks - a callback may register and remove handlers of its own switch (itself, a peer, one later in the same walk or deadline bucket, either state, timed or untimed) while a change or an expired bucket is being dispatched, modelled as the code does it: the walk over a copy with the cancelled flag, the re-check against the live bucket, the bucket deleted after its callbacks, one wake-up re-armed at the end - and for every sequence of raw/logical reports, resyncs, registrations and removals, mutes, time steps and wake-ups: the logical state is the last reported one (NC inverted for raw values) and the raw state its inverse image (after a resync: the hardware); a duplicate changes nothing and calls nothing; a change of an unmuted switch calls a sub-sequence of the untimed handlers registered for the new state when it happened, each at most once, in order - exactly all of them unless a callback of the walk removes one - and nothing that a callback registers during the walk; a muted change calls nothing; a monitor hears of every real change exactly once; the wake-up is always scheduled at the minimum pending deadline and never overdue, so every call made by a wake-up (also of handlers that callbacks of that wake-up left or put in place) is for the current state at exactly change+ms; a removed handler is neither registered nor pending and is never called until somebody registers it again - also when the removal happens inside a callback: not later in the same walk, not later in the same bucket, not in a later bucket. A poll that agrees with the hardware is a no-op; a poll that disagrees overwrites the state silently (witness theorem: a stale hold-time handler then still fires) and is excluded from the timing theorems. A second model covers the Switch device's own events (events_once without an ignore window, recycle_window with one). Both models are tied to switch_controller.py and devices/switch.py by correspondence runs on real machines (NO and NC switches, callbacks that mutate, mutes, monitors, resync/poll, wait futures, tags, timed events, ignore window) on every check.",
+  "note": "Trusted: Lean kernel + {propext, Quot.sound, Classical.choice}; hand-written Model/Switch.lean validated by differential runs; asyncio timer heap / TimeTravelLoop (time cannot pass a scheduled wake-up: built into the model's `to` step); 1/8 s time grid (floats exact). Not modelled: callbacks that report a switch change themselves (re-entrant process_switch) or act on another switch, monitors that mutate, process_switch_by_num for unknown numbers, mutes in the device-event stream; wait_for_switch futures are covered by the oracle and by the correspondence of their handlers' registration/removal, not by a theorem of their own.",
+  "technique": "Lean 4 invariants and loop invariants over all op sequences and all callback behaviours (induction over the op list, over the walked copy and over the deadline keys) on two hand models (controller per switch, Switch device events) + differential correspondence with the real SwitchController/Switch + timeline oracles",
   "translated": False,
 }
-RULE = ("cases: 8-45 ops on 1-3 switches (NO/NC, some initially active): raw/logical reports incl. duplicates, add/remove of "
-        "handlers (4 callback ids, state 0/1, hold times from {0,1,2,3,8} ticks, duplicates likely), is_active/is_inactive(ms) "
-        "queries and advances from {0,1,1,2,3,4,9} ticks so that gaps straddle the hold times and handlers are added before, "
-        "inside, exactly at and after a pending deadline; second stream: switches with tags, events_when_(de)activated incl. "
-        "|ms and ignore_window_ms under report/advance sequences. non-trivial = at least one timed handler pending across an "
-        "op and at least one callback; distinct = canonical JSON")
+RULE = ("cases: 8-45 ops on 1-3 switches (NO/NC): raw/logical reports incl. duplicates, add/remove of handlers (4 callback ids, "
+        "state 0/1, hold times from {0,1,2,3,8} ticks, mostly from a pool of 3-6 specs per case so that duplicates, shared deadline "
+        "buckets and hits are likely), in 60% of the cases 1-3 callback ids carry a program of 1-3 add/remove actions drawn from the "
+        "same pool (incl. their own handler) which they perform when called, is_active/is_inactive(ms) queries and advances from "
+        "{0,1,1,2,3,4,9} ticks so that gaps straddle the hold times and handlers are added before, inside, exactly at and after a "
+        "pending deadline; in half of the cases monitors on/off, FAST resyncs with random raw snapshots, wait_for_any_switch futures "
+        "(1-3 switches, state 0/1/2, only_on_change, hold 0-2 ticks) and cancellations; in a quarter mute/unmute and verify_switches "
+        "polls (in sync or with a missed change); second stream: switches with tags, events_when_(de)activated incl. |ms and "
+        "ignore_window_ms under report/advance sequences. non-trivial = at least one timed handler pending across an op and at "
+        "least one callback; distinct = canonical JSON")
 TRUSTED = [
     "modelled, not verified: asyncio timer heap / TimeTravelLoop (the scheduled wake-up runs before time passes it; order of "
-    "same-instant wake-ups of different switches taken from the implementation), dict insertion order, functools.partial",
-    "Model/Switch.lean is hand-written; tied to mpf/core/switch_controller.py by correspondence on every run",
+    "same-instant wake-ups of different switches taken from the implementation), dict insertion order, functools.partial, "
+    "asyncio.Future (done callbacks run at the next loop iteration)",
+    "Model/Switch.lean is hand-written; tied to mpf/core/switch_controller.py by correspondence on every run (callback programs, "
+    "mute, monitor, resync = FastNetNeuronCommunicator.update_switches_from_hw_data run against the virtual machine with a stub "
+    "communicator, poll = verify_switches with the platform's get_hw_switch_states replaced)",
     "the Dev model in Model/Switch.lean is hand-written; tied to mpf/devices/switch.py (_post_events, _post_events_with_recycle, "
     "_recycle_passed) by correspondence on every run, plus an independent timeline oracle for the posted events",
 ]
-ASSUMPTIONS = ["hold times and report instants are multiples of 125 ms", "switch callbacks do not register/remove switch handlers",
-               "switches are not muted; every configured switch event has a listener (events without one are not posted by design)",
+ASSUMPTIONS = ["hold times and report instants are multiples of 125 ms",
+               "switch callbacks register/remove handlers of their own switch only; they do not report switch changes themselves "
+               "(re-entrant process_switch during a walk is outside the model) and monitors do not touch handlers",
+               "not judged by the oracle because the statement does not say (compared with the model only, counted in the "
+               "evidence): what a muted switch calls, whether a handler added during a walk is called in that walk, the order of "
+               "calls, everything between a silent overwrite of the state by a poll and the next real change",
+               "every configured switch event has a listener (events without one are not posted by design)",
                "outside C03 (the statement is about the logical state, which is right from start-up): Switch.hw_state is not "
                "initialised from the hardware - update_switches_from_hw sets only `state`, so an NC switch shows hw_state 0 until "
-               "its first real change (a duplicate first raw report leaves it stale); hw_state is therefore compared only after the "
-               "first change and the model is started from the implementation's initial hw_state"]
+               "its first real change or resync (a duplicate first raw report leaves it stale); hw_state is therefore compared only "
+               "after the first change/resync and the model is started from the implementation's initial hw_state"]
 
 TICK = 0.125
 
@@ -73,20 +93,66 @@ def first_of(ctx, sig):
 # ---------------------------------------------------------------------------------------------------- generator
 
 def gen_case(r):
+    """A timeline on 1-3 switches.  Most handler specs (state, hold, callback id) come from a small pool per case so that
+    registrations, removals and the actions of the callback programs hit each other: same deadline bucket, duplicates,
+    removal of a peer that is later in the same walk, re-adding inside the walk."""
     nsw = r.choice([1, 1, 2, 2, 3])
     sws = [{"nc": r.random() < 0.4} for _ in range(nsw)]
+    pool = []
+    for _ in range(r.randint(3, 5)):
+        pool.append((r.choice([1, 1, 1, 0]), r.choice([0, 0, 1, 2, 2, 3, 3, 8]), r.choice([0, 0, 1, 1, 2, 3])))
+    if r.random() < 0.5:      # make two specs share state and hold time (same bucket) with different callbacks
+        st, ms, cb = pool[0]
+        pool.append((st, ms, (cb + 1) % 4))
+
+    def spec():
+        if r.random() < 0.8:
+            return r.choice(pool)
+        return (r.choice([1, 1, 1, 0]), r.choice([0, 1, 2, 2, 3, 3, 8]), r.choice([0, 0, 1, 1, 2, 3]))
+
+    progs = []
+    if r.random() < 0.6:
+        for cb in r.sample([0, 1, 2, 3], r.choice([1, 1, 2, 3])):
+            acts = []
+            for _ in range(r.choice([1, 1, 2, 3])):
+                st, ms, c2 = spec()
+                if r.random() < 0.25:
+                    c2 = cb                                     # its own handler
+                acts.append([r.choice(["a", "r", "r"]), st, ms, c2])
+            progs.append([cb, acts])
+    extras = r.random() < 0.5          # monitors, resync, wait futures
+    silent = r.random() < 0.25         # mute and polls (parts of such timelines are outside the statement)
     ops = []
+    nwait = 0
     for _ in range(r.randint(8, 45)):
         k = r.random()
         i = r.randrange(nsw)
-        st = r.choice([1, 1, 1, 0])
-        ms = r.choice([0, 1, 2, 2, 3, 3, 8])
-        cb = r.choice([0, 0, 1, 1, 2, 3])
-        if k < 0.30:
+        st, ms, cb = spec()
+        if extras and k < 0.12:
+            x = r.random()
+            if x < 0.25:
+                ops.append(["mon", r.choice([1, 1, 0])])
+            elif x < 0.5:
+                ops.append(["resync", [r.choice([0, 1]) for _ in range(nsw)]])
+            elif x < 0.85:
+                ops.append(["wait", sorted(r.sample(range(nsw), r.randint(1, nsw))), r.choice([0, 1, 1, 2]),
+                            r.choice([1, 1, 0]), r.choice([0, 0, 1, 2])])
+                nwait += 1
+            elif nwait:
+                ops.append(["cancel", r.randrange(nwait)])
+        elif silent and k < 0.22:
+            x = r.random()
+            if x < 0.4:
+                ops.append(["mute", i, r.choice([0, 1])])
+            elif x < 0.75:
+                ops.append(["unmute", i, r.choice([0, 1])])
+            else:
+                ops.append(["poll", [r.choice(["=", "=", "=", "x"]) for _ in range(nsw)]])
+        elif k < 0.32:
             ops.append(["adv", r.choice([0, 1, 1, 1, 2, 2, 3, 4, 9])])
-        elif k < 0.55:
+        elif k < 0.56:
             ops.append(["report", i, r.choice(["l", "r"]), r.choice([0, 1])])
-        elif k < 0.78:
+        elif k < 0.80:
             ops.append(["add", i, st, ms, cb])
             if r.random() < 0.2:
                 ops.append(["add", i, st, ms, cb])
@@ -95,30 +161,75 @@ def gen_case(r):
         else:
             ops.append(["q", i, st, r.choice([0, 1, 2, 3])])
     ops.append(["adv", r.choice([3, 9])])
-    return {"kind": "ctl", "sws": sws, "ops": ops}
+    return {"kind": "ctl", "sws": sws, "progs": progs, "ops": ops}
 
 
 # ---------------------------------------------------------------------------------------------------- real code
 
 _wrapped = {}
+WAIT_CB = 500        # callback ids of wait_for_switch futures: WAIT_CB + index of the future
+
+
+def _active_run(sc, kind=None):
+    run = _wrapped.get("run")
+    if run is None or run.vm is None or run.vm.machine is None or sc is not run.vm.machine.switch_controller:
+        return None
+    if kind is not None and not isinstance(run, kind):
+        return None
+    return run
 
 
 def install_wake_logger():
-    """Wrap SwitchController._process_active_timed_switches once per process; the active run (if any) gets the calls."""
+    """Wrap SwitchController._process_active_timed_switches (and, for the futures of wait_for_switch, the registration
+    and removal of their handlers and `_wait_handler`) once per process; the active run (if any) gets the calls."""
     from mpf.core.switch_controller import SwitchController
     if _wrapped.get("cls") is SwitchController:
         return
     orig = SwitchController._process_active_timed_switches
+    o_add, o_rm = SwitchController.add_switch_handler_obj, SwitchController.remove_switch_handler_obj
+    o_wait = SwitchController._wait_handler
+    o_proc = SwitchController.process_switch_obj
 
     def logged(self, switch):
-        run = _wrapped.get("run")
-        if run is not None and run.vm is not None and run.vm.machine is not None and \
-                self is run.vm.machine.switch_controller:
+        run = _active_run(self)
+        if run is not None:
             if run.finished:
                 return None       # teardown (or a runaway that was cut): drop the wake-up instead of re-arming it
             run.on_wake(switch)
         return orig(self, switch)
+
+    def is_wait(callback):
+        return getattr(callback, "func", None) is waiter and "_future" in getattr(callback, "keywords", {})
+
+    def add(self, switch, callback, state=1, ms=0, return_info=False, callback_kwargs=None):
+        run = _active_run(self, CtlRun)
+        if run is not None and not run.finished and is_wait(callback):
+            run.on_wait_add(switch, callback, state, ms)
+        return o_add(self, switch, callback, state, ms, return_info, callback_kwargs)
+
+    def rm(self, switch, callback, state=1, ms=0):
+        run = _active_run(self, CtlRun)
+        if run is not None and not run.finished and is_wait(callback):
+            run.on_wait_rm(switch, callback, state, ms)
+        return o_rm(self, switch, callback, state, ms)
+
+    def waiter(_future, **kwargs):
+        run = _wrapped.get("run")
+        if isinstance(run, CtlRun) and not run.finished and _future in run.fut_index:
+            run.on_wait_call(_future, kwargs)
+        return o_wait(_future, **kwargs)
+
+    def proc(self, obj, state, logical, timestamp=None):
+        run = _active_run(self, CtlRun)
+        if run is not None and not run.finished and run.in_resync is not None:
+            return run.on_resync_change(obj, lambda: o_proc(self, obj, state, logical, timestamp))
+        return o_proc(self, obj, state, logical, timestamp)
+
     SwitchController._process_active_timed_switches = logged
+    SwitchController.add_switch_handler_obj = add
+    SwitchController.remove_switch_handler_obj = rm
+    SwitchController._wait_handler = staticmethod(waiter)
+    SwitchController.process_switch_obj = proc
     _wrapped["cls"] = SwitchController
 
 
@@ -126,6 +237,7 @@ class CtlRun:
     def __init__(self, case, shared=None):
         """shared = (booted VMachine with switches s0..sN, index of the switch this one-switch case uses)"""
         self.case = case
+        self.progs = {cb: acts for cb, acts in case.get("progs", [])}
         self.groups = []
         self.log = []
         self.funcs = {}
@@ -133,8 +245,14 @@ class CtlRun:
         self.finished = False
         self.crash = None
         self.wakes = 0
+        self.calls = 0
         self.shared = shared
         self.base = shared[1] if shared else 0
+        self.futures = []          # dict(fut, idx, t, switches, state, ooc, ms, immediate, regs, first_call, cancelled)
+        self.fut_index = {}
+        self.in_resync = None
+        self.depth = 0             # > 0 while a handler of the run is executing (its actions are nested operations)
+        self.monitor_on = False
 
     def tick(self):
         x = (self.vm.now() - self.t0) / TICK
@@ -144,16 +262,40 @@ class CtlRun:
         self.cur = {"head": head, "t": self.tick(), "obs": []}
         self.groups.append(self.cur)
 
+    def sw_index(self, switch):
+        try:
+            i = int(switch.name[1:]) - self.base
+        except ValueError:
+            return None
+        return i if 0 <= i < len(self.case["sws"]) else None
+
     def func(self, i, cb, st, ms):
-        """one plain function per (switch, cb id, state, ms): registering it twice is a duplicate registration"""
+        """one plain function per (switch, cb id, state, ms): registering it twice is a duplicate registration.  When
+        called it logs the call and then performs the actions of callback `cb` on its own switch, in order."""
         key = (i, cb, st, ms)
         if key not in self.funcs:
             def f():
                 if self.finished:
                     return
                 t = self.tick()
+                self.calls += 1
+                if self.calls > 4000:     # e.g. a walk over a list that its own callbacks keep extending
+                    self.finished = True
+                    raise RuntimeError("runaway: more than 4000 handler calls in one case")
                 self.log.append(("call", i, cb, st, ms, t))
                 self.cur["obs"].append("c %d %d %d %s" % (cb, st, ms, t))
+                sc = self.vm.machine.switch_controller
+                sw = self.switches[i]
+                self.depth += 1
+                try:
+                    for kind, st2, ms2, cb2 in self.progs.get(cb, ()):
+                        self.log.append(("add" if kind == "a" else "rm", i, st2, ms2, cb2, t, "nested"))
+                        if kind == "a":
+                            sc.add_switch_handler_obj(sw, self.func(i, cb2, st2, ms2), st2, ms2 * 125)
+                        else:
+                            sc.remove_switch_handler_obj(sw, self.func(i, cb2, st2, ms2), st2, ms2 * 125)
+                finally:
+                    self.depth -= 1
             f.__name__ = "h_%d_%d_%d_%d" % key
             self.funcs[key] = f
         return self.funcs[key]
@@ -163,11 +305,164 @@ class CtlRun:
         if self.wakes > 3000:     # a wake-up that re-arms itself at the same instant would spin for ever
             self.finished = True
             raise RuntimeError("runaway: more than 3000 wake-ups in one case")
-        i = int(switch.name[1:]) - self.base
-        if not 0 <= i < len(self.case["sws"]):
+        i = self.sw_index(switch)
+        if i is None:
             return                # a switch of an earlier sequence on a shared machine
         self.group(["wake", i])
         self.log.append(("wake", i, self.tick()))
+
+    # -- wait_for_switch futures: their handlers are ordinary handlers with callback id WAIT_CB + index of the future
+    def on_wait_add(self, switch, callback, state, ms):
+        i = self.sw_index(switch)
+        f = self.fut_index.get(callback.keywords["_future"])
+        if i is None or f is None:
+            return
+        rec = self.futures[f]
+        rec["regs"].append((i, state, ms // 125, callback))
+        self.group(["add", i, state, ms // 125, WAIT_CB + f])
+        self.log.append(("add", i, state, ms // 125, WAIT_CB + f, self.tick(), "wait"))
+
+    def on_wait_rm(self, switch, callback, state, ms):
+        i = self.sw_index(switch)
+        f = self.fut_index.get(callback.keywords["_future"])
+        if i is None or f is None:
+            return
+        self.group(["rm", i, state, ms // 125, WAIT_CB + f])
+        self.log.append(("rm", i, state, ms // 125, WAIT_CB + f, self.tick(), "wait"))
+
+    def on_wait_call(self, fut, kwargs):
+        f = self.fut_index[fut]
+        rec = self.futures[f]
+        i = int(kwargs["switch_name"][1:]) - self.base
+        st = [x[1] for x in rec["regs"] if x[0] == i][0]
+        ms = kwargs["ms"] // 125
+        t = self.tick()
+        self.log.append(("call", i, WAIT_CB + f, st, ms, t))
+        self.cur["obs"].append("c %d %d %d %s" % (WAIT_CB + f, st, ms, t))
+        if rec["first_call"] is None:
+            rec["first_call"] = (i, t, fut.done())      # done() here = it was done before its first handler call
+
+    def on_resync_change(self, obj, call):
+        i = self.sw_index(obj)
+        if i is None:
+            return call()
+        hw = self.in_resync["hw"][i]
+        self.in_resync["done"].add(i)
+        t = self.tick()
+        self.group(["resync", i, hw])
+        self.log.append(("report", i, "r", hw, t))
+        try:
+            return call()
+        finally:
+            self.log.append(("state", i, obj.state, obj.hw_state, t, "hw"))
+
+    def monitor(self, change):
+        if self.finished:
+            return
+        try:
+            i = int(change.name[1:]) - self.base
+        except ValueError:
+            return
+        if not 0 <= i < len(self.case["sws"]):
+            return
+        self.log.append(("mon", i, change.state, self.tick()))
+        self.cur["obs"].append("m %d" % change.state)
+
+    def do_wait(self, op):
+        sc = self.vm.machine.switch_controller
+        _, idxs, state, ooc, ms = op
+        t = self.tick()
+        f = len(self.futures)
+        sws = [self.switches[i] for i in idxs if i < len(self.switches)]
+        rec = {"idx": f, "t": t, "log": len(self.log), "switches": [i for i in idxs if i < len(self.switches)], "state": state,
+               "ooc": bool(ooc), "ms": ms, "regs": [], "first_call": None, "cancelled": None, "fut": None,
+               "states_at_creation": [s.state for s in sws],
+               "held_at_creation": [bool(sc.is_state(s, state, ms * 125)) if state != 2 else None for s in sws]}
+        self.futures.append(rec)
+        # the future object is created inside wait_for_any_switch: register it the moment its first handler is added
+        import asyncio
+        orig_future = asyncio.Future
+
+        def make(*a, **k):
+            fut = orig_future(*a, **k)
+            if rec["fut"] is None:
+                rec["fut"] = fut
+                self.fut_index[fut] = f
+            return fut
+        asyncio.Future = make
+        try:
+            fut = sc.wait_for_any_switch(sws, state, bool(ooc), ms * 125)
+        finally:
+            asyncio.Future = orig_future
+        if rec["fut"] is None:
+            rec["fut"] = fut
+            self.fut_index[fut] = f
+        rec["immediate"] = fut.done()
+        self.log.append(("wait", f, t))
+
+    def do_resync(self, op):
+        """FAST's resync (`FastNetNeuronCommunicator.update_switches_from_hw_data`) run against this machine: a snapshot of
+        all raw states; hw_state is synchronised, every switch whose logical state differs is processed as a change."""
+        from types import SimpleNamespace
+        from mpf.platforms.fast.communicators.net_neuron import FastNetNeuronCommunicator
+        m = self.vm.machine
+        hw = {}
+        mine = {}
+        for name, sw in m.switches.items():
+            i = self.sw_index(sw)
+            if i is not None and i < len(op[1]):
+                hw[sw.hw_switch.number] = op[1][i]
+                mine[i] = op[1][i]
+            else:
+                hw[sw.hw_switch.number] = sw.hw_state          # foreign switches of a shared machine: unchanged
+        platform = self.switches[0].platform
+        platform.hw_switch_data = hw
+        platform.new_switch_data = SimpleNamespace(set=lambda: None)
+        stub = SimpleNamespace(machine=m, platform=platform)
+        self.in_resync = {"hw": mine, "done": set()}
+        try:
+            FastNetNeuronCommunicator.update_switches_from_hw_data(stub)
+        finally:
+            done = self.in_resync["done"]
+            self.in_resync = None
+        t = self.tick()
+        for i, v in mine.items():
+            if i not in done:
+                self.group(["resync", i, v])
+                self.log.append(("report", i, "r", v, t))
+                self.log.append(("state", i, self.switches[i].state, self.switches[i].hw_state, t, "hw"))
+        self.group(["none"])
+
+    def do_poll(self, op):
+        """verify_switches(): reads the hardware; `=` the hardware agrees with MPF, `x` it differs (a missed report)"""
+        m = self.vm.machine
+        sc = m.switch_controller
+        hw = {}
+        mine = {}
+        for name, sw in m.switches.items():
+            i = self.sw_index(sw)
+            v = sw.state ^ sw.invert
+            if i is not None and i < len(op[1]) and op[1][i] == "x":
+                v ^= 1
+            if i is not None:
+                mine[i] = v
+            hw[sw.hw_switch.number] = v
+        platform = self.switches[0].platform
+
+        async def states():
+            return dict(hw)
+        old = platform.get_hw_switch_states
+        platform.get_hw_switch_states = states
+        t = self.tick()
+        try:
+            ok = self.vm.tc.loop.run_until_complete(sc.verify_switches())
+        finally:
+            platform.get_hw_switch_states = old
+        for i, v in mine.items():
+            self.group(["poll", i, v])
+            self.log.append(("poll", i, v, self.switches[i].state, t))
+        self.log.append(("verify", bool(ok), t))
+        self.group(["none"])
 
     def run(self):
         install_wake_logger()
@@ -188,6 +483,7 @@ class CtlRun:
             vm.align()
             self.t0 = vm.now()
             self.initial = [(1 if s.invert else 0, s.state, s.hw_state) for s in self.switches]
+            self.group(["none"])
             for op in self.case["ops"]:
                 if self.crash:
                     break
@@ -195,9 +491,37 @@ class CtlRun:
                     t = self.tick()
                     if op[0] == "adv":
                         self.log.append(("adv", t, t + op[1]))
+                        self.group(["none"])
                         vm.advance(op[1] * TICK)
                         self.group(["none"])
                         continue
+                    if op[0] == "mon":
+                        self.log.append(("monitor", op[1], t))
+                        self.group(op)
+                        (sc.add_monitor if op[1] else sc.remove_monitor)(self.monitor)
+                        self.monitor_on = bool(op[1])
+                        continue
+                    if op[0] == "resync":
+                        self.do_resync(op)
+                        continue
+                    if op[0] == "poll":
+                        self.do_poll(op)
+                        continue
+                    if op[0] == "wait":
+                        self.group(["none"])
+                        self.do_wait(op)
+                        self.group(["none"])
+                        continue
+                    if op[0] == "cancel":
+                        if op[1] < len(self.futures):
+                            rec = self.futures[op[1]]
+                            if not rec["fut"].done():
+                                rec["cancelled"] = (t, len(self.log))
+                                self.log.append(("cancel", op[1], t))
+                                rec["fut"].cancel()
+                        continue
+                    if op[1] >= len(self.switches):
+                        continue          # (shrunk cases keep their ops; an op on a switch that is not there is skipped)
                     sw = self.switches[op[1]]
                     self.group(op)
                     if op[0] == "report":
@@ -214,34 +538,71 @@ class CtlRun:
                         res = (sc.is_active if op[2] else sc.is_inactive)(sw, op[3] * 125)
                         self.log.append(("q", op[1], op[2], op[3], bool(res), t))
                         self.cur["obs"].append("a %d" % (1 if res else 0))
+                    elif op[0] == "mute":
+                        self.log.append(("mute", op[1], op[2], t))
+                        sw.mute(op[2])
+                    elif op[0] == "unmute":
+                        self.log.append(("unmute", op[1], op[2], t))
+                        sw.unmute(op[2])
                     else:
                         raise InfraError("unknown op %r" % (op,))
                 except InfraError:
                     raise
                 except Exception as e:
                     self.crash = "%s: %s" % (type(e).__name__, e)
+                    self.crash_type = type(e).__name__
                     self.group(["crash"])
                     self.cur["obs"].append("crash " + type(e).__name__)
             self.end = self.tick()
             self.pending = [self.pending_line(i) for i in range(len(self.switches))]
+            self.leftovers = self.wait_leftovers()
         finally:
             self.finished = True
             try:
+                if self.monitor_on and self.vm.machine is not None:
+                    self.vm.machine.switch_controller.remove_monitor(self.monitor)
+                for s in getattr(self, "switches", []):
+                    s._mutes.clear()
                 if self.shared is None:
                     self.vm.stop()    # wake-ups during teardown are dropped by the logger (see install_wake_logger)
             finally:
                 _wrapped["run"] = None
         return self
 
+    def wait_leftovers(self):
+        """handlers of finished (resolved and delivered, or cancelled) futures that are still registered or pending"""
+        sc = self.vm.machine.switch_controller
+        out = []
+        for rec in self.futures:
+            fut = rec["fut"]
+            if fut is None or not fut.done():
+                continue
+            for i, st, ms, callback in rec["regs"]:
+                sw = self.switches[i]
+                if any(e.callback is callback for e in sc.registered_switches[sw][st]):
+                    out.append((rec["idx"], i, "registered"))
+                for k, es in sc._active_timed_switches.get(sw, {}).items():
+                    if any(e.callback is callback for e in es):
+                        out.append((rec["idx"], i, "pending"))
+        return out
+
+    def cb_name(self, callback):
+        for k, f in self.funcs.items():
+            if f is callback:
+                return k[1]
+        fut = getattr(callback, "keywords", {}).get("_future")
+        if fut in self.fut_index:
+            return WAIT_CB + self.fut_index[fut]
+        return 999
+
     def pending_line(self, i):
         sc = self.vm.machine.switch_controller
         sw = self.switches[i]
-        name = {f: k for k, f in self.funcs.items()}
         parts = []
         for k, es in sc._active_timed_switches.get(sw, {}).items():
             kt = (k - self.t0) / TICK
             parts.append("%s:%s" % (int(kt) if kt == int(kt) else kt,
-                                    ",".join("%d/%d/%d" % (name[e.callback][1], e.state, e.ms // 125) for e in es)))
+                                    ",".join("%d/%d/%d" % (self.cb_name(e.callback), e.state, e.ms // 125) for e in es)))
         d = sc._timed_switch_handler_delay.get(sw)
         w = "-"
         if d is not None:
@@ -250,13 +611,21 @@ class CtlRun:
         return "T " + " ".join(parts) + " W " + w + " S %d%d" % (sw.state, sw.hw_state)
 
 
+def prog_line(cb, acts):
+    return "prog %d" % cb + "".join(" %s %d %d %d" % (k, st, ms, c2) for k, st, ms, c2 in acts)
+
+
 def model_lines(run):
     out = [("new", "ok")]
     for inv, st, hw in run.initial:
         out.append(("sw %d %d %d" % (inv, st, hw), "ok"))
+    for cb, acts in run.case.get("progs", []):
+        out.append((prog_line(cb, acts), "ok"))
     now = 0
     for g in run.groups:
         h = g["head"]
+        if h[0] == "none" and not g["obs"]:
+            continue
         if g["t"] != now:
             out.append(("to %s" % g["t"], "ok"))
             now = g["t"]
@@ -271,8 +640,16 @@ def model_lines(run):
             out.append(("%d q %d %d" % (h[1], h[2], h[3]), exp))
         elif h[0] == "wake":
             out.append(("%d wake" % h[1], exp))
+        elif h[0] in ("mute", "unmute"):
+            out.append(("%d %s %d" % (h[1], h[0], h[2]), exp))
+        elif h[0] == "mon":
+            out.append(("mon %d" % h[1], exp))
+        elif h[0] in ("resync", "poll"):
+            out.append(("%d %s %d" % (h[1], h[0], h[2]), exp))
         elif h[0] == "crash":
             out.append(("crash", exp))
+        elif h[0] == "none":
+            out.append(("stray", exp))       # a callback ran outside every operation of the model: never expected
     for i, p in enumerate(run.pending):
         out.append(("%d pending" % i, p))
     return out
@@ -280,111 +657,235 @@ def model_lines(run):
 
 # ---------------------------------------------------------------------------------------------------- oracle
 
-def oracle(run):
-    """C03 from the timeline (no state machine of the controller): returns None or (signature, detail)."""
+def oracle(run, counts=None):
+    """C03 from the timeline (no state machine of the controller): returns None or (signature, detail).
+
+    Walks the log in the order things happened.  Judged: the logical state after every report / resync / poll; every call of
+    a handler (it must be registered at that very moment - a removed handler never fires, also when the removal happened in
+    an earlier callback of the same walk -, for the state the switch is in, at change + hold time, at most once per
+    registration and change); every real change must have called each untimed handler that was registered when it happened
+    exactly once unless a callback of that walk removed it first; a hold-time handler must have fired at change+ms iff it
+    was registered strictly before that instant, not removed before it and the switch stayed.  NOT judged (the statement
+    does not say): whether a handler added by a callback during a walk is called in that walk; the order of calls; what a
+    muted switch calls; anything between a silent overwrite of the state by a poll and the next real change."""
+    def cnt(name):
+        if counts is not None:
+            counts[name] = counts.get(name, 0) + 1
+
     if run.crash:
-        return "crash", {"error": run.crash}
+        return "crash-" + getattr(run, "crash_type", "Exception"), {"error": run.crash}
     n = len(run.switches)
     for i in range(n):
         inv, st0, hw0 = run.initial[i]
         state = st0
-        changes = []         # (t, new_state, log index)
-        regs = []            # registrations: dict(st, ms, cb, t_add, idx_add, t_rm, idx_rm)
-        expected = []        # (cb, st, ms, t, kind)
+        changes = []         # dict(t, st, idx, end (log index where its walk ended), muted, must (registrations), silent)
+        regs = []            # registrations: dict(st, ms, cb, t_add, idx_add, t_rm, idx_rm, fired {change idx: count})
+        mutes = set()
+        tainted = False      # between a silent overwrite by a poll and the next real change
+        monitor = False
+        cur = None           # the change whose walk is running
+        wake_groups = []     # (idx_start, t)
         for idx, ev in enumerate(run.log):
-            if ev[0] == "report" and ev[1] == i:
+            if ev[0] == "monitor":
+                monitor = bool(ev[1])
+            elif ev[0] == "wake" and ev[1] == i:
+                wake_groups.append((idx, ev[2]))
+            elif ev[0] == "mute" and ev[1] == i:
+                mutes.add(ev[2])
+            elif ev[0] == "unmute" and ev[1] == i:
+                mutes.discard(ev[2])
+            elif ev[0] == "report" and ev[1] == i:
                 _, _, kind, v, t = ev
                 logical = v if kind == "l" else v ^ inv
+                cur = None
                 if logical != state:
                     state = logical
-                    changes.append((t, logical, idx))
-                    # untimed handlers registered now, in registration order, once each
-                    for r in regs:
-                        if r["st"] == logical and r["ms"] == 0 and r["idx_rm"] is None:
-                            expected.append((r["cb"], logical, 0, t, idx))
+                    tainted = False
+                    cur = {"t": t, "st": logical, "idx": idx, "muted": bool(mutes), "mon": monitor, "mon_calls": 0,
+                           "must": [r for r in regs if r["st"] == logical and r["ms"] == 0 and r["idx_rm"] is None],
+                           "calls": {}}
+                    changes.append(cur)
+                else:
+                    cnt("dup_report")
             elif ev[0] == "state" and ev[1] == i:
-                _, _, s_impl, hw_impl, t = ev
+                s_impl, hw_impl, t = ev[2], ev[3], ev[4]
                 if s_impl != state:
                     return "state-not-last-report", {"switch": i, "state": s_impl, "last_reported": state, "t": t}
-                # hw_state is only checked once the switch has changed: Switch.hw_state is not initialised from the
-                # hardware at start (stays 0 for an NC switch), see the report
-                if changes and hw_impl != state ^ inv:
+                # hw_state is only checked once the switch has changed (or was resynchronised): Switch.hw_state is not
+                # initialised from the hardware at start (stays 0 for an NC switch), see ASSUMPTIONS
+                if (changes or len(ev) > 5) and not tainted and hw_impl != state ^ inv:
                     return "hw-state-wrong", {"switch": i, "hw_state": hw_impl, "state": state, "invert": inv, "t": t}
+                if cur is not None:
+                    # the walk of this change is over
+                    if not cur["muted"]:
+                        for r in cur["must"]:
+                            got = cur["calls"].get(id(r), 0)
+                            removed_in_walk = r["idx_rm"] is not None and r["idx_rm"] < idx
+                            if got == 0 and not removed_in_walk:
+                                return "untimed-missing-call", {"switch": i, "handler": [r["cb"], r["st"], 0], "t": cur["t"]}
+                            if got == 0:
+                                cnt("untimed_skipped_removed_in_walk")
+                    if cur["mon"] and cur["mon_calls"] != 1:
+                        return "monitor-not-once-per-change", {"switch": i, "t": cur["t"], "calls": cur["mon_calls"]}
+                    cur = None
+            elif ev[0] == "mon" and ev[1] == i:
+                if cur is None or ev[2] != cur["st"] or not monitor:
+                    return "monitor-extra-or-wrong-state", {"switch": i, "state": ev[2], "t": ev[3],
+                                                           "in_change": cur is not None, "installed": monitor}
+                cur["mon_calls"] += 1
+            elif ev[0] == "poll" and ev[1] == i:
+                _, _, v, s_impl, t = ev
+                if s_impl != v ^ inv:
+                    return "state-not-hardware-after-poll", {"switch": i, "state": s_impl, "hardware": v, "t": t}
+                if v ^ inv != state:
+                    state = v ^ inv
+                    tainted = True
+                    cnt("silent_change_by_poll")
+                    if changes:
+                        changes[-1].setdefault("silenced", (t, idx))
+                else:
+                    cnt("poll_in_sync")
             elif ev[0] == "add" and ev[1] == i:
-                regs.append({"st": ev[2], "ms": ev[3], "cb": ev[4], "t_add": ev[5], "idx_add": idx, "t_rm": None, "idx_rm": None})
+                regs.append({"st": ev[2], "ms": ev[3], "cb": ev[4], "t_add": ev[5], "idx_add": idx, "t_rm": None, "idx_rm": None,
+                             "fired": {}})
+                if len(ev) > 6 and ev[6] == "nested":
+                    cnt("nested_add_in_untimed_walk" if cur is not None else "nested_add_in_timed_bucket")
             elif ev[0] == "rm" and ev[1] == i:
                 for r in regs:
                     if (r["st"], r["ms"], r["cb"]) == (ev[2], ev[3], ev[4]) and r["idx_rm"] is None:
                         r["t_rm"], r["idx_rm"] = ev[5], idx
+                        if len(ev) > 6 and ev[6] == "nested":
+                            cnt("nested_rm_in_untimed_walk" if cur is not None else "nested_rm_in_timed_bucket")
             elif ev[0] == "q" and ev[1] == i:
                 _, _, st, ms, res, t = ev
-                since = t - changes[-1][0] if changes else 10 ** 9
+                if tainted:
+                    continue
+                since = t - changes[-1]["t"] if changes else 10 ** 9
                 want = (state == st) and (ms == 0 or since >= ms)
                 if res != want:
                     return "query-wrong", {"switch": i, "state_asked": st, "ms": ms, "answer": res, "expected": want, "t": t}
-        # timed registrations: one call at change+ms for every change into st such that the registration exists strictly
-        # before the deadline, is not removed before it, and no other change happens before it
-        timed_expected = []
+            elif ev[0] == "call" and ev[1] == i:
+                _, _, cb, st, ms, t = ev
+                if tainted:
+                    cnt("call_after_silent_change")
+                    continue
+                live = [r for r in regs if (r["cb"], r["st"], r["ms"]) == (cb, st, ms) and r["idx_rm"] is None]
+                kind = "timed" if ms else "untimed"
+                if not live:
+                    was = [r for r in regs if (r["cb"], r["st"], r["ms"]) == (cb, st, ms)]
+                    if was:
+                        last = max(was, key=lambda r: r["idx_rm"])
+                        same_walk = last["t_rm"] == t
+                        return kind + "-removed-handler-fires", {"switch": i, "call": [cb, st, ms, t], "removed_at": last["t_rm"],
+                                                                 "removed_in_same_walk": same_walk}
+                    return kind + "-extra-call", {"switch": i, "call": [cb, st, ms, t], "why": "never registered"}
+                if ms == 0:
+                    if cur is None or st != cur["st"] or t != cur["t"]:
+                        return "untimed-extra-call", {"switch": i, "call": [cb, st, ms, t], "why": "no change into this state now"}
+                    if cur["muted"]:
+                        cnt("call_on_muted_change")
+                        continue
+                    cands = [r for r in live if any(r is m for m in cur["must"])]
+                    if not cands:
+                        cnt("handler_added_in_walk_called_in_same_walk")
+                        continue
+                    # each registration at most once per change
+                    r = min(cands, key=lambda r: cur["calls"].get(id(r), 0))
+                    if cur["calls"].get(id(r), 0) >= 1:
+                        return "untimed-extra-call", {"switch": i, "call": [cb, st, ms, t], "why": "more than once for one change"}
+                    cur["calls"][id(r)] = 1
+                else:
+                    if not changes:
+                        return "timed-extra-call", {"switch": i, "call": [cb, st, ms, t], "why": "switch never changed"}
+                    c = changes[-1]
+                    if c["muted"]:
+                        cnt("timed_call_after_muted_change")
+                        continue
+                    if st != state or c["t"] + ms != t:
+                        return "timed-fires-at-wrong-time", {"switch": i, "call": [cb, st, ms, t], "state": state,
+                                                             "last_change": c["t"]}
+                    ok = [r for r in live if (r["idx_add"] < c["idx"] or r["t_add"] < t) and r["fired"].get(c["idx"], 0) == 0]
+                    if not ok:
+                        late = all(r["idx_add"] > c["idx"] and r["t_add"] >= t for r in live)
+                        return ("timed-late-add-fires" if late else "timed-extra-call"), \
+                            {"switch": i, "call": [cb, st, ms, t], "why": "registered at/after the deadline" if late
+                             else "more than once for one change"}
+                    ok[0]["fired"][c["idx"]] = 1
+        # hold-time registrations that had to fire: for every real change into st with the deadline inside the run, the
+        # registration existing strictly before the deadline, not removed before it, no other change before it
         for r in regs:
             if r["ms"] == 0:
                 continue
-            for ci, (tc, st, idxc) in enumerate(changes):
-                if st != r["st"]:
+            for ci, c in enumerate(changes):
+                if c["st"] != r["st"] or c["muted"]:
                     continue
-                dl = tc + r["ms"]
+                dl = c["t"] + r["ms"]
                 if dl > run.end:
                     continue
                 nxt = changes[ci + 1] if ci + 1 < len(changes) else None
                 # the deadline's wake-up runs when the clock reaches dl, i.e. before any op issued at instant dl
-                if nxt is not None and nxt[0] < dl:
+                if nxt is not None and nxt["t"] < dl:
                     continue
-                if r["idx_add"] > idxc and not (r["t_add"] < dl):
+                if c.get("silenced") and c["silenced"][0] < dl:
+                    continue            # the state was overwritten silently before the deadline: not judged
+                if r["idx_add"] > c["idx"] and not (r["t_add"] < dl):
                     continue            # added at or after the deadline: not at all
-                if nxt is not None and r["idx_add"] > nxt[2]:
+                if nxt is not None and r["idx_add"] > nxt["idx"]:
                     continue
-                if r["idx_rm"] is not None and r["t_rm"] < dl and r["idx_rm"] > idxc:
-                    continue            # removed while pending
-                if r["idx_rm"] is not None and r["idx_rm"] < idxc:
+                if r["idx_rm"] is not None and r["idx_rm"] < c["idx"]:
                     continue            # removed before this change
-                if dl == run.end and not any(e[0] == "wake" and e[1] == i and e[2] == dl for e in run.log):
-                    # the last advance ends exactly on the deadline: it must have run (advance is inclusive)
-                    pass
-                timed_expected.append((r["cb"], r["st"], r["ms"], dl))
-        got_untimed = [(e[2], e[3], e[4], e[5]) for e in run.log if e[0] == "call" and e[1] == i and e[4] == 0]
-        got_timed = sorted((e[2], e[3], e[4], e[5]) for e in run.log if e[0] == "call" and e[1] == i and e[4] != 0)
-        exp_untimed = [(c, s, m, t) for c, s, m, t, _ in expected]
-        if got_untimed != exp_untimed:
-            k = 0
-            while k < len(got_untimed) and k < len(exp_untimed) and got_untimed[k] == exp_untimed[k]:
-                k += 1
-            g = got_untimed[k] if k < len(got_untimed) else None
-            e = exp_untimed[k] if k < len(exp_untimed) else None
-            sig = "untimed-extra-call" if (e is None or (g is not None and g[3] < e[3])) else "untimed-missing-call"
-            if g is not None and e is not None and g[3] == e[3]:
-                sig = "untimed-wrong-order-or-handler"
-            return sig, {"switch": i, "index": k, "got": g, "expected": e}
-        timed_expected.sort()
-        if got_timed != timed_expected:
-            extra = list(got_timed)
-            missing = []
-            for x in timed_expected:
-                if x in extra:
-                    extra.remove(x)
-                else:
-                    missing.append(x)
-            if extra:
-                x = extra[0]
-                # classify: was it removed / added late / wrong time?
-                sig = "timed-extra-call"
-                for r in regs:
-                    if (r["cb"], r["st"], r["ms"]) == x[:3]:
-                        if r["idx_rm"] is not None and r["t_rm"] <= x[3]:
-                            sig = "timed-removed-handler-fires"
-                lastc = [c for c in changes if c[0] <= x[3] and c[1] == x[1]]
-                if sig == "timed-extra-call" and lastc and lastc[-1][0] + x[2] != x[3]:
-                    sig = "timed-fires-at-wrong-time"
-                return sig, {"switch": i, "call": x, "missing": missing[:2]}
-            return "timed-missing-call", {"switch": i, "missing": missing[0]}
+                if r["idx_rm"] is not None and r["t_rm"] < dl:
+                    continue            # removed while pending
+                if r["idx_rm"] is not None and r["t_rm"] == dl and r["fired"].get(c["idx"], 0) == 0:
+                    # removed at the very instant of the deadline: by a callback of the same bucket (it ran first) - or by
+                    # an operation issued after the wake-up, in which case it must have fired
+                    wk = [w for w in wake_groups if w[1] == dl]
+                    nested = r["idx_rm"] is not None and len(run.log[r["idx_rm"]]) > 6
+                    if wk and nested and r["idx_rm"] > wk[0][0]:
+                        cnt("timed_skipped_removed_in_same_bucket")
+                        continue
+                if r["fired"].get(c["idx"], 0) == 0:
+                    return "timed-missing-call", {"switch": i, "missing": [r["cb"], r["st"], r["ms"], dl]}
+    # wait_for_switch futures
+    for rec in run.futures:
+        fut = rec["fut"]
+        want_now = None
+        if not rec["ooc"] and rec["state"] != 2:
+            hits = [k for k, h in enumerate(rec["held_at_creation"]) if h]
+            want_now = rec["switches"][hits[0]] if hits else None
+        if rec.get("immediate"):
+            if want_now is None:
+                return "wait-resolved-without-change", {"future": rec["idx"], "t": rec["t"]}
+            if fut.result().get("switch_name") != "s%d" % (run.base + want_now) or rec["regs"]:
+                return "wait-immediate-wrong", {"future": rec["idx"], "result": str(fut.result()), "expected_switch": want_now,
+                                                "handlers_registered": len(rec["regs"])}
+            continue
+        if want_now is not None:
+            return "wait-not-resolved-although-in-state", {"future": rec["idx"], "t": rec["t"]}
+        # one handler per switch, for the requested state (2 = the opposite of the state at creation) and hold time
+        want_regs = sorted((i, rec["state"] if rec["state"] != 2 else 1 - rec["states_at_creation"][k], rec["ms"])
+                           for k, i in enumerate(rec["switches"]))
+        if sorted(x[:3] for x in rec["regs"]) != want_regs:
+            return "wait-handler-for-wrong-state", {"future": rec["idx"], "registered": sorted(x[:3] for x in rec["regs"]),
+                                                    "expected": want_regs}
+        fc = rec["first_call"]
+        if fc is None:
+            if fut.done() and not fut.cancelled():
+                return "wait-resolved-without-change", {"future": rec["idx"], "t": rec["t"]}
+            continue
+        if rec["cancelled"] is not None and fut.cancelled():
+            cnt("wait_cancelled")
+            continue
+        if fc[2]:
+            # its handler was first called when the future was already done (cancelled before): fine
+            continue
+        if not fut.done() or fut.cancelled():
+            return "wait-not-resolved-at-first-change", {"future": rec["idx"], "first_call": fc[:2]}
+        if fut.result().get("switch_name") != "s%d" % (run.base + fc[0]):
+            return "wait-resolved-with-wrong-switch", {"future": rec["idx"], "result": str(fut.result()), "first_call": fc[:2]}
+        cnt("wait_resolved")
+    if run.leftovers:
+        return "wait-handler-left-behind", {"leftovers": run.leftovers[:3]}
     return None
 
 
@@ -398,11 +899,14 @@ def check_case(ctx, case, model, shrink=True, shared=None, sample=True):
     run = CtlRun(case, shared).run()
     ctx.evaluated(case, nontrivial(run), sample=sample)
     for e in run.log:
-        if e[0] in ("report", "add", "rm", "q", "wake"):
+        if e[0] in ("report", "add", "rm", "q", "wake", "mute", "unmute", "poll", "wait", "cancel", "mon", "monitor"):
             ctx.count("op_" + e[0])
         elif e[0] == "call":
             ctx.count("call_timed" if e[4] else "call_untimed")
-    bad = oracle(run)
+    counts = {}
+    bad = oracle(run, counts)
+    for k, v in counts.items():
+        ctx.count(k, v)
     if bad:
         sig, detail = bad
         small = case
@@ -736,6 +1240,20 @@ CORPUS = [
      "ops": [["add", 0, 1, 3, 1], ["report", 0, "r", 0], ["adv", 1], ["add", 0, 1, 3, 2], ["add", 0, 1, 2, 3], ["adv", 1],
              ["add", 0, 1, 2, 0], ["report", 0, "l", 1], ["q", 0, 1, 2], ["adv", 1], ["q", 0, 1, 3], ["report", 0, "r", 1],
              ["adv", 4], ["report", 1, "r", 1], ["report", 1, "l", 1], ["adv", 1]]},
+    # session 3: a callback of an expired bucket registers a timed handler while a later deadline is pending (the stale
+    # second wake-up used to end in KeyError)
+    {"kind": "ctl", "sws": [{"nc": False}], "progs": [[2, [["a", 1, 0, 3], ["a", 1, 3, 2]]]],
+     "ops": [["add", 0, 1, 1, 2], ["add", 0, 1, 2, 0], ["report", 0, "r", 1], ["adv", 9]]},
+    # two handlers with the same deadline, the first removes the second (and itself): the second must not fire; untimed
+    # walk: the first removes a later one and re-adds it, adds a new one (not called in this round, called at the next change)
+    {"kind": "ctl", "sws": [{"nc": True}], "progs": [[3, [["r", 0, 3, 1], ["r", 0, 3, 3]]], [0, [["r", 1, 0, 1], ["a", 1, 0, 1], ["a", 1, 0, 2]]]],
+     "ops": [["add", 0, 0, 3, 3], ["add", 0, 0, 3, 1], ["add", 0, 1, 0, 0], ["add", 0, 1, 0, 1], ["mon", 1], ["report", 0, "l", 1],
+             ["report", 0, "r", 1], ["adv", 3], ["report", 0, "l", 1], ["adv", 1]]},
+    # muted change, unmute, resync with a difference and without, poll in sync, wait future resolved / cancelled
+    {"kind": "ctl", "sws": [{"nc": False}, {"nc": True}], "progs": [],
+     "ops": [["add", 0, 1, 0, 0], ["add", 0, 1, 2, 1], ["mute", 0, 1], ["report", 0, "l", 1], ["adv", 3], ["unmute", 0, 1],
+             ["report", 0, "l", 0], ["wait", [0, 1], 1, 1, 1], ["wait", [1], 2, 1, 0], ["resync", [1, 1]], ["poll", ["=", "="]],
+             ["adv", 1], ["resync", [1, 0]], ["cancel", 1], ["adv", 2], ["wait", [0], 1, 0, 0], ["adv", 1]]},
 ]
 
 
@@ -744,7 +1262,11 @@ EXH_NO = [["report", 0, "l", 1], ["report", 0, "l", 0], ["add", 0, 1, 1, 0], ["a
 EXH_NC = [["report", 0, "r", 1], ["report", 0, "r", 0], ["add", 0, 0, 2, 1], ["add", 0, 1, 1, 0], ["rm", 0, 0, 2, 1],
           ["adv", 1], ["adv", 2]]
 EXH_NO6 = [["report", 0, "l", 1], ["report", 0, "l", 0], ["add", 0, 1, 2, 1], ["rm", 0, 1, 2, 1], ["adv", 1], ["adv", 2]]
-EXH_SPACES = [(EXH_NO, 5, False), (EXH_NC, 5, True), (EXH_NO6, 6, False)]
+# callbacks that mutate: 0 removes handler 1 of its own bucket/walk and registers 2 with a longer hold; 2 removes itself
+EXH_MUT = [["report", 0, "l", 1], ["report", 0, "l", 0], ["add", 0, 1, 1, 0], ["add", 0, 1, 1, 1], ["add", 0, 1, 0, 0],
+           ["add", 0, 1, 0, 1], ["adv", 1]]
+EXH_MUT_PROGS = [[0, [["r", 1, 1, 1], ["r", 1, 0, 1], ["a", 1, 2, 2]]], [1, [["a", 1, 0, 0]]], [2, [["r", 1, 2, 2]]]]
+EXH_SPACES = [(EXH_NO, 5, False, None), (EXH_NC, 5, True, None), (EXH_NO6, 6, False, None), (EXH_MUT, 5, False, EXH_MUT_PROGS)]
 EXH_SWITCHES = 400
 
 
@@ -758,7 +1280,7 @@ def exhaustive(ctx, model, spaces=None):
     desc = []
     cfg = sw_config([{"nc": i % 2 == 1} for i in range(EXH_SWITCHES)])
     try:
-        for alphabet, maxlen, nc in (spaces or EXH_SPACES):
+        for alphabet, maxlen, nc, progs in (spaces or EXH_SPACES):
             n = 0
             for L in range(0, maxlen + 1):
                 for seq in itertools.product(alphabet, repeat=L):
@@ -774,11 +1296,13 @@ def exhaustive(ctx, model, spaces=None):
                         used = {False: 0, True: 0}
                     idx = 2 * used[nc] + (1 if nc else 0)
                     used[nc] += 1
-                    case = {"kind": "ctl", "sws": [{"nc": nc}], "ops": [list(o) for o in seq] + [["adv", 3]]}
+                    case = {"kind": "ctl", "sws": [{"nc": nc}], "progs": progs or [],
+                            "ops": [list(o) for o in seq] + [["adv", 3]]}
                     check_case(ctx, case, model, shared=(vm, idx), sample=False)
                     n += 1
-            desc.append("all %d op sequences of length <= %d over the %d-op alphabet %s on one %s switch"
-                        % (n, maxlen, len(alphabet), json.dumps(alphabet), "NC" if nc else "NO"))
+            desc.append("all %d op sequences of length <= %d over the %d-op alphabet %s on one %s switch%s"
+                        % (n, maxlen, len(alphabet), json.dumps(alphabet), "NC" if nc else "NO",
+                           (" with callback programs %s" % json.dumps(progs)) if progs else ""))
     finally:
         if vm is not None:
             vm.stop()
@@ -792,11 +1316,11 @@ def run(ctx):
     try:
         for case in CORPUS:
             check_case(ctx, case, model)
-        for i in range(ctx.n(900, 15000)):
+        for i in range(ctx.n(900, 10000)):
             check_case(ctx, gen_case(ctx.rng("ctl", i)), model)
             if i % 200 == 199:
                 mpfleak.release()
-        for i in range(ctx.n(300, 5000)):
+        for i in range(ctx.n(300, 4000)):
             check_event_case(ctx, gen_event_case(ctx.rng("ev", i)), model=model)
             if i % 200 == 199:
                 mpfleak.release()
@@ -812,4 +1336,4 @@ def replay(ctx, rep):
     if case.get("kind") == "events":
         check_event_case(ctx, {k: case[k] for k in ("kind", "window", "ops")}, shrink=False)
     elif case.get("kind") == "ctl":
-        check_case(ctx, {k: case[k] for k in ("kind", "sws", "ops")}, None, shrink=False)
+        check_case(ctx, {k: case[k] for k in ("kind", "sws", "progs", "ops") if k in case}, None, shrink=False)
